@@ -90,6 +90,9 @@ func c06RawUniverse() []c06RT {
 				out = append(out, c06RT{Obj: o, Rel: r, SubID: id})
 			}
 			out = append(out, c06RT{Obj: o, Rel: r, SetObj: "g", SetRel: "m"}, c06RT{Obj: o, Rel: r, SetObj: "a", SetRel: "r"})
+			if r == "r" {
+				out = append(out, c06RT{Obj: o, Rel: r, SetObj: "g", SetRel: ""}) // a subject set without relation
+			}
 		}
 	}
 	return out
@@ -135,7 +138,7 @@ func c06RawOps() []c06RawOp {
 	for _, q := range []string{"", "ns", "obj-g", "rel-m"} {
 		ops = append(ops, c06RawOp{Kind: "delall", Q: q})
 	}
-	ops = append(ops, c06RawOp{Kind: "tx", T: 5, U: 0}, c06RawOp{Kind: "tx", T: 0, U: 5})
+	ops = append(ops, c06RawOp{Kind: "tx", T: 6, U: 0}, c06RawOp{Kind: "tx", T: 0, U: 6})
 	return ops
 }
 
@@ -222,6 +225,27 @@ func c06RawVector(ctx context.Context, s *apih.Server, calls *atomic.Int64) []st
 			out = append(out, fmt.Sprintf("traverse-%s %s = %v %v", mode, t, ks, err))
 		}
 		calls.Add(4)
+	}
+	// special spellings of "no relation" in a subject-set subject ("", "...", "*"): lookups only, A's alphabet
+	// writes rows with the empty one
+	for _, rel := range []string{"", "...", "*"} {
+		for _, o := range []string{"a", "g"} {
+			it := &relationtuple.RelationTuple{Namespace: "n1", Object: c06RawID(o), Relation: "r", Subject: &relationtuple.SubjectSet{Namespace: "n1", Object: c06RawID("g"), Relation: rel}}
+			ex, err := m.ExistsRelationTuples(ctx, it.ToQuery())
+			ts, _, lerr := m.GetRelationTuples(ctx, &relationtuple.RelationQuery{Subject: it.Subject})
+			var ks []string
+			for _, t := range ts {
+				ks = append(ks, c06RawRender(t))
+			}
+			sort.Strings(ks)
+			res, terr := tr.TraverseSubjectSetRewrite(ctx, it, []string{"r", "m"})
+			found := false
+			for _, r := range res {
+				found = found || r.Found
+			}
+			out = append(out, fmt.Sprintf("subject (g#%q) on %s#r: exists=%v %v list=%v %v rewrite-found=%v %v", rel, o, ex, err, ks, lerr, found, terr))
+			calls.Add(3)
+		}
 	}
 	for _, ss := range [][2]string{{"a", "r"}, {"a", "m"}, {"g", "m"}, {"g", "r"}} {
 		t, err := s.Reg.ExpandEngine().BuildTree(ctx, &relationtuple.SubjectSet{Namespace: "n1", Object: c06RawID(ss[0]), Relation: ss[1]}, 5)
